@@ -3,7 +3,8 @@
    world w (preferred SLO bindings, SLO endpoints of every IdP); `spec_cl cl` says that the clause
    cl of the reference monitor C19.Spec holds at every step of a trace. *)
 From Coq Require Import List Bool Arith ZArith.
-From Verif Require Import C19.Model C19.Spec C19.Proofs.
+From Verif Require Import Base.Py Base.Py2 C19.Model C19.Spec C19.Proofs C19.Source2.
+From VerifGen Require Import C19Src2.
 Import ListNotations.
 
 (* isolation: whatever is returned for (subject, issuer) was stored for exactly that pair and the
@@ -108,3 +109,97 @@ Theorem c19_mixed_logout_completes :
   = [OUnit; OUnit; OSent [SentPending 0 REDIRECT 0; SentSoap 1]; OIdentity [1; 2] []; ODone; OIdentity [] []].
 Proof. exact mixed_outputs. Qed.
 Print Assumptions c19_mixed_logout_completes.
+
+(* the expiry time a Response hands to the session cache: a Response whose SessionNotOnOrAfter or
+   Conditions/@NotOnOrAfter has passed is refused and nothing is stored; an accepted one is stored with the end of
+   the session when the IdP states one (AuthnStatement/@SessionNotOnOrAfter, whatever Conditions/@NotOnOrAfter
+   says) and with Conditions/@NotOnOrAfter otherwise — the time the monitor of c19_expiry holds the reads to *)
+Theorem c19_stale_response_stores_nothing : forall w st s i cn sn t,
+  response_fresh (now st) cn sn = false -> step w st (AcceptResponse s i cn sn t RGood) = (st, ORejected).
+Proof. exact stale_response_stores_nothing. Qed.
+Print Assumptions c19_stale_response_stores_nothing.
+
+Theorem c19_accepted_response_expires_with_session : forall w st s i cn sn t,
+  (0 < now st)%Z -> response_fresh (now st) cn sn = true ->
+  step w st (AcceptResponse s i cn sn t RGood) = (store st s i (info_nooa cn sn) (Some t), OAccepted).
+Proof. exact accepted_response_stored. Qed.
+Print Assumptions c19_accepted_response_expires_with_session.
+
+(* ================================================================ source tie (translator v2)
+   coq/gen/C19Src2.v is re-translated from the CURRENT text of saml2/time_util.py, cache.py, population.py,
+   response.py and client.py on every run; each theorem says that the translated function, applied to the encoding
+   of ANY input of the model, is the encoding of what the model function answers (exceptions included).
+   Encodings, and what the theorems do not cover: C19/Source2.v, notes/C19.md. *)
+Theorem c19_source2_before : forall parse (n p : Z),
+  src2_before (PInt n) parse (PInt p) = PBool (tu_before n p).
+Proof. exact src2_before_is_model. Qed.
+Print Assumptions c19_source2_before.
+
+Theorem c19_source2_after : forall parse (n p : Z),
+  src2_after (PInt n) parse (PInt p) = PBool (tu_after n p).
+Proof. exact src2_after_is_model. Qed.
+Print Assumptions c19_source2_after.
+
+Theorem c19_source2_cache_get : forall skey ikey nid code_ decode_ parse,
+  cache_encoding_ok skey ikey nid code_ decode_ -> forall (n : Z) c s i chk,
+  src2_cache_get (PInt n) parse code_ decode_ (enc_cache skey ikey c) (nid s) (enc_issuer ikey i) (PBool chk)
+  = enc_getres nid s (c_get n c s i chk).
+Proof. exact stated_cache_get. Qed.
+Print Assumptions c19_source2_cache_get.
+
+Theorem c19_source2_cache_active : forall skey ikey nid code_ decode_ parse,
+  cache_encoding_ok skey ikey nid code_ decode_ -> forall (n : Z) c s i,
+  src2_cache_active (PInt n) parse code_ (enc_cache skey ikey c) (nid s) (enc_issuer ikey i) = PBool (c_active n c s i).
+Proof. exact stated_cache_active. Qed.
+Print Assumptions c19_source2_cache_active.
+
+Theorem c19_source2_cache_entities : forall skey ikey nid code_ decode_,
+  cache_encoding_ok skey ikey nid code_ decode_ -> forall c s,
+  src2_cache_entities code_ (enc_cache skey ikey c) (nid s) = enc_olist ikey (option_map keys (lookup s c)).
+Proof. exact stated_cache_entities. Qed.
+Print Assumptions c19_source2_cache_entities.
+
+Theorem c19_source2_cache_delete : forall skey ikey nid code_ decode_ sync_,
+  cache_encoding_ok skey ikey nid code_ decode_ -> forall c s, NoDup (keys c) ->
+  src2_cache_delete code_ sync_ (enc_cache skey ikey c) (nid s) = enc_deleted skey ikey c s.
+Proof. exact stated_cache_delete. Qed.
+Print Assumptions c19_source2_cache_delete.
+
+Theorem c19_source2_cache_delete_reachable : forall skey ikey nid code_ decode_ sync_,
+  cache_encoding_ok skey ikey nid code_ decode_ -> forall w t0 h s,
+  src2_cache_delete code_ sync_ (enc_cache skey ikey (db (final w (init t0) h))) (nid s)
+  = enc_deleted skey ikey (db (final w (init t0) h)) s.
+Proof. exact stated_cache_delete_reachable. Qed.
+Print Assumptions c19_source2_cache_delete_reachable.
+
+Theorem c19_source2_stale_sources_for_person : forall skey ikey nid code_ decode_ parse,
+  cache_encoding_ok skey ikey nid code_ decode_ -> forall (n : Z) c s absent srcs,
+  src2_stale_sources (PInt n) parse code_ (enc_population skey ikey c) (nid s) (enc_sources ikey absent srcs)
+  = enc_olist ikey (c_stale n c s srcs).
+Proof. exact stated_stale_sources. Qed.
+Print Assumptions c19_source2_stale_sources_for_person.
+
+Theorem c19_source2_add_information_about_person : forall set_ cache_ ava name_id came_from issuer authn_info session_index nooa,
+  is_bad name_id = false -> is_bad issuer = false ->
+  src2_add_information set_ (enc_users cache_) (enc_sinfo ava name_id came_from issuer authn_info session_index nooa)
+  = py_bind (set_ cache_ name_id issuer (enc_sinfo_stored ava name_id came_from authn_info session_index nooa) (PInt nooa))
+            (fun _ => name_id).
+Proof. exact src2_add_information_is_model. Qed.
+Print Assumptions c19_source2_add_information_about_person.
+
+Theorem c19_source2_session_info : forall issuer_ authn_info_ authz_info_ ava name_id came_from session_index,
+  is_bad ava = false -> is_bad name_id = false -> is_bad came_from = false -> is_bad session_index = false ->
+  (forall r, is_bad (issuer_ r) = false) -> (forall r, is_bad (authn_info_ r) = false) ->
+  forall cn sn,
+  src2_session_info issuer_ authn_info_ authz_info_ (enc_response ava name_id came_from session_index cn sn)
+  = enc_session_info issuer_ authn_info_ ava name_id came_from session_index
+      (enc_response ava name_id came_from session_index cn sn) (effective_nooa cn sn).
+Proof. exact src2_session_info_is_model. Qed.
+Print Assumptions c19_source2_session_info.
+
+Theorem c19_source2_is_logged_in : forall get_identity_ (tok_field : tok -> String.string * pyval) users nidv old (n : Z) c s toks olds,
+  c_get_identity n c s [] true = Some (toks, olds) -> is_bad nidv = false -> is_bad old = false ->
+  get_identity_ users nidv = PList [PObj (map tok_field toks); old] ->
+  src2_is_logged_in get_identity_ (enc_client users) nidv = PBool (is_logged_in n c s).
+Proof. exact src2_is_logged_in_is_model. Qed.
+Print Assumptions c19_source2_is_logged_in.
